@@ -22,9 +22,13 @@ template <class HandlerT> class Worker : boost::noncopyable {
 
     // Only call from thread.
     void operator()() {
+      KPU_KENLM_VERIF_POINT(::util::verif::kThreadStart, this);
       Request request;
       while (1) {
         in_.Consume(request);
+#ifdef KPU_KENLM_VERIF
+        if (request == poison_) KPU_KENLM_VERIF_POINT(::util::verif::kThreadEnd, this);
+#endif
         if (request == poison_) return;
         try {
           (*handler_)(request);
@@ -41,7 +45,9 @@ template <class HandlerT> class Worker : boost::noncopyable {
     }
 
     void Join() {
+      KPU_KENLM_VERIF_POINT(::util::verif::kThreadBeforeJoin, this);
       thread_.join();
+      KPU_KENLM_VERIF_POINT(::util::verif::kThreadAfterJoin, this);
     }
 
   private:
@@ -62,6 +68,7 @@ template <class HandlerT> class ThreadPool : boost::noncopyable {
     template <class Construct> ThreadPool(std::size_t queue_length, std::size_t workers, Construct handler_construct, Request poison) : in_(queue_length), poison_(poison) {
       for (size_t i = 0; i < workers; ++i) {
         workers_.push_back(new Worker<Handler>(in_, handler_construct, poison));
+        KPU_KENLM_VERIF_POINT(::util::verif::kThreadSpawned, &workers_.back());
       }
     }
 
